@@ -452,7 +452,40 @@ func genKvSql(repo string) (string, error) {
 		scheme = strings.Join(strings.Fields(constant.StringVal(v)), " ")
 	}
 	fmt.Fprintf(&b, "Definition gen_sqlite_scheme : string := %s.\n", coqStr(scheme))
+	// ... and as a structure: (column, type, constraints); words that are not a
+	// known constraint stay as they are (and fail the obligation)
+	fmt.Fprintf(&b, "Definition gen_sqlite_columns : list (string * string * list string) :=\n  %s.\n",
+		coqList(schemeColumns(scheme)))
 	return b.String(), nil
+}
+
+// schemeColumns parses "( k text not null unique, c text not null, ... )".
+func schemeColumns(scheme string) []string {
+	body := strings.TrimSpace(scheme)
+	body = strings.TrimSuffix(strings.TrimPrefix(body, "("), ")")
+	var out []string
+	for _, col := range strings.Split(body, ",") {
+		f := strings.Fields(strings.ToLower(col))
+		if len(f) < 2 {
+			out = append(out, fmt.Sprintf("(%s, %s, [%s])", coqStr(strings.TrimSpace(col)), coqStr("?"), coqStr("unparsed")))
+			continue
+		}
+		var cons []string
+		for i := 2; i < len(f); i++ {
+			switch {
+			case f[i] == "not" && i+1 < len(f) && f[i+1] == "null":
+				cons = append(cons, coqStr("not null"))
+				i++
+			case f[i] == "primary" && i+1 < len(f) && f[i+1] == "key":
+				cons = append(cons, coqStr("primary key"))
+				i++
+			default:
+				cons = append(cons, coqStr(f[i]))
+			}
+		}
+		out = append(out, fmt.Sprintf("(%s, %s, [%s])", coqStr(f[0]), coqStr(f[1]), strings.Join(cons, "; ")))
+	}
+	return out
 }
 
 // opsBinding lists which method each KVOps field is bound to in ops().
